@@ -831,6 +831,12 @@ class Exec:
             (is_z3(l) and z3.is_string(l)) or (is_z3(r) and z3.is_string(r))
         ):
             return z3.Concat(lift(l), lift(r))
+        if isinstance(op, ast.Add) and (isinstance(l, FStr) or isinstance(r, FStr)) and isinstance(l, (FStr, str)) and isinstance(r, (FStr, str)):
+            # concatenation of f-strings: skeletons and components are appended (same tuple model as a single f-string)
+            def parts(x):
+                return (list(x.skeleton), list(x.comps)) if isinstance(x, FStr) else ([x], [])
+            (ls, lc), (rs, rc) = parts(l), parts(r)
+            return FStr(ls + rs, lc + rc)
         if isinstance(op, ast.Add) and isinstance(l, list) and isinstance(r, list):
             return l + r
         if isinstance(op, (ast.BitAnd, ast.BitOr)) and all(
